@@ -553,6 +553,76 @@ def shadow_attacks():
     return out
 
 
+# Two-step histories: a first invocation tampers with what the NEXT set-up of
+# the sandbox will use (the global helpers the privileged chunk calls, the
+# timeout setters, the stack of module environments the host keeps), later
+# outermost invocations on the same and on another page trigger that set-up.
+TAMPER_BODY = r"""
+if frame.args[1] == "check" then return "TAMPER:" .. tostring(loot_ctx) end
+local raw_next, raw_type, raw_pcall, raw_tostring = _orig_next or next, type, pcall, tostring
+local busy = false
+local function try(t)
+  if busy then return end
+  busy = true
+  raw_pcall(function()
+    for k, v in raw_next, t do
+      local ok, a = raw_pcall(function() return v.args end)
+      if ok and a ~= nil then
+        local c = a[0]
+        loot_ctx = raw_tostring(c)
+        raw_pcall(function() c.add_page("Evil", 0, "x") end)
+        raw_pcall(function()
+          c.db_path.parent.joinpath("pwned-tamper.txt").write_text("x")
+        end)
+      end
+    end
+  end)
+  busy = false
+end
+local function wrap(orig)
+  if raw_type(orig) ~= "function" then return orig end
+  return function(...)
+    local a = ...
+    if raw_type(a) == "table" then try(a) end
+    return orig(...)
+  end
+end
+pairs = wrap(pairs); ipairs = wrap(ipairs); next = wrap(next)
+getmetatable = wrap(getmetatable); type = wrap(type); select = wrap(select)
+rawget = wrap(rawget); rawset = wrap(rawset); tostring = wrap(tostring)
+unpack = wrap(unpack); setmetatable = wrap(setmetatable)
+require = wrap(require)
+@@DUMMIES@@
+for i = 1, @@K@@ do @@PUSH@@ end
+return "planted"
+"""
+
+TAMPER_HISTORY = ["{{#invoke:attack|main|check}}", "{{#invoke:echo|f|x}}",
+                  "{{wrap|check}}", "@newpage", "{{#invoke:attack|main|check}}",
+                  "{{#invoke:echo|f|y}}"]
+
+
+def tamper_attacks():
+    out = []
+    pushes = {"G": "_python_append_env(_G)",
+              "empty": "_python_append_env({})",
+              "frameenv": "_python_append_env(setmetatable({}, {__index = _G}))"}
+    for k in (0, 1, 2, 3):
+        for dummies in (False, True):
+            for pn, push in pushes.items():
+                if k == 0 and pn != "G":
+                    continue
+                body = TAMPER_BODY.replace("@@K@@", str(k)).replace(
+                    "@@PUSH@@", push).replace(
+                    "@@DUMMIES@@",
+                    "_lua_set_timeout = function() end; "
+                    "_lua_clear_timeout_hook = function() end"
+                    if dummies else "")
+                out.append((f"tamper:push={pn}x{k},dummies={int(dummies)}",
+                            body))
+    return out
+
+
 # generated path programs: small expressions over the edge alphabet
 ROOTS = ["_G", "frame", "mw", "string", "table", "math", "os", "package",
          "debug", 'getmetatable("")', "frame:getParent()",
@@ -599,7 +669,7 @@ def ctx_snapshot(ctx):
         "parser_function_aliases", "quiet_output")}
 
 
-def attack_child(body, extra_pages=()):
+def attack_child(body, extra_pages=(), history=()):
     """Runs one attack program for real in a scratch directory.  extra_pages:
     further (title, Lua source) module pages of the hostile dump."""
     env.setup()
@@ -647,6 +717,15 @@ def attack_child(body, extra_pages=()):
             out = ctx.expand("{{wrap|arg}}", timeout=5)
         except BaseException as e:
             out = f"EXC {type(e).__name__}: {e}"[:300]
+        # further outermost invocations on the same page / on a new page
+        for step in history:
+            if step == "@newpage":
+                ctx.start_page("Second attack page")
+                continue
+            try:
+                out += "|" + ctx.expand(step, timeout=5)
+            except BaseException as e:
+                out += f"|EXC {type(e).__name__}: {e}"[:200]
         obs = {"out": out[:400]}
         obs["canary_in_output"] = CANARY in out
         obs["db_changed"] = snapshot_db(ctx) != before_db
@@ -739,7 +818,9 @@ PROBE_RETURNS = {
 def run_attack(args):
     name, body = args[0], args[1]
     extra = args[2] if len(args) > 2 else ()
-    status, obs, el = par.fork_child(attack_child, (body, extra), timeout=40)
+    history = TAMPER_HISTORY if name.startswith("tamper:") else ()
+    status, obs, el = par.fork_child(attack_child, (body, extra, history),
+                                     timeout=60)
     viols = judge_attack(name, body, status, obs)
     if status == "ok" and name in PROBE_RETURNS and obs["returned_value"]:
         if PROBE_RETURNS[name] in obs["out"] and "builtin" not in obs["out"]:
@@ -827,6 +908,9 @@ def run(run):
         progs.append((n, b))
         extras[n] = extra
     run.extra["shadowed_builtin_titles"] = len(extras)
+    tampers = tamper_attacks()
+    progs += tampers
+    run.extra["tamper_histories"] = len(tampers)
     res = par.map_shards(run_attack, [((n, b, extras.get(n, ())),)
                                       for n, b in progs], procs)
     for name, body, viols, nontriv, obs in res:
@@ -839,6 +923,8 @@ def run(run):
         shadow = name.startswith("shadow:")
         if shadow:
             run.classes["attack:shadowed-builtin"] += 1
+        if name.startswith("tamper:"):
+            run.classes["attack:tamper-history"] += 1
         for sig, what in viols:
             if gen:
                 sig = dict(sig, attack="generated-path")
@@ -876,7 +962,11 @@ def run(run):
         "plus, for every built-in Lua file of the package, a hostile module "
         "page stored under that file's module name (three title spellings) "
         "whose payload watches the tables passing through the global helpers "
-        "while the sandbox is set up and uses any Python callable it finds: "
+        "while the sandbox is set up and uses any Python callable it finds; "
+        "and two-step histories in which a first invocation wraps the global "
+        "helpers, optionally disables the timeout setters and pushes 0-3 "
+        "extra entries on the host's environment stack, followed by five "
+        "further outermost invocations on the same and on a new page: "
         "no new or changed file, pages table byte-identical, context "
         "attributes unchanged, canary not returned, no host object obtained. "
         "Non-trivial: reached objects at distance >= 2; programs with >= 3 "
